@@ -536,8 +536,12 @@ def judge_narrow(R, scene, res, T, member_queue):
                         continue
                 if concentric:
                     T.hit("skip_mpr_pos_concentric")       # C08 candidate finding F20: position outside for coinciding centres
-                elif av.get("pos") is not None:
+                elif av.get("pos") is not None and a0.get("pos") is not None:
                     pos = np.array(av["pos"], float)
+                    if float(np.linalg.norm(vmap(mp, a0["pos"]) - pos)) <= tol:
+                        T.hit("mpr_pos_direct")         # moved with the motion: equivariant, whatever C08 says about it
+                        continue
+                    T.hit("mpr_pos_fallback")
                     for nm, spec in (("first", s1), ("second", s2)):
                         member_queue.append((scene, f"mpr_penetration: {vname}: contact position, mapped back, is not within 2e-3*L of the "
                                                     f"{nm} collider", spec, vinv(mp, pos).tolist(), (K_MPR * Lv / mp["s"]) * 1.01 + 1e-9 * L[0],
